@@ -103,6 +103,15 @@ def model_result(lib, op, a):
         return solve_for(ex, [jnp["ceil"](ex, toz(a["x"]))])[0]
     if op == "pad":
         return "skip"
+    if op in ("argmin_nan", "argsort", "nanmax"):
+        return ("axioms", op)           # axiomatic models (contracts/c18.py): the real result must satisfy the assumed axioms
+    if op == "tree_leaves":
+        import json as _j
+        return [int(v) for v in lib.ns["jax.tree_util"].entries["tree_leaves"](ex, _j.loads(a["tree"]))]
+    if op == "tree_map_none":
+        import json as _j
+        r = lib.ns["jax.tree_util"].entries["tree_map"](ex, (lambda ex_, v: v + 100), _j.loads(a["tree"]))
+        return ("json", _j.dumps(r, sort_keys=True))
     raise ValueError(op)
 
 
@@ -110,7 +119,7 @@ def gen(rng):
     n = rng.randint(1, 5)
     f = lambda: round(rng.uniform(-3, 3), 3)
     ints = lambda k, lo=-4, hi=9: [rng.randint(lo, hi) for _ in range(k)]
-    op = rng.choice(["clip", "where", "roll", "take", "take_arr", "dynamic_slice", "argwhere", "searchsorted", "flip", "at_set", "pymod", "floordiv_real", "round6", "interp", "max_min", "int_trunc", "ceil"])
+    op = rng.choice(["clip", "where", "roll", "take", "take_arr", "dynamic_slice", "argwhere", "searchsorted", "flip", "at_set", "pymod", "floordiv_real", "round6", "interp", "max_min", "int_trunc", "ceil", "argmin_nan", "argsort", "nanmax", "tree_leaves", "tree_map_none"])
     if op == "clip":
         lo = f()
         return op, dict(x=f(), lo=lo, hi=lo + abs(f()))
@@ -149,6 +158,23 @@ def gen(rng):
         return op, dict(x=f())
     if op == "ceil":
         return op, dict(x=f())
+    if op in ("argmin_nan", "argsort", "nanmax"):
+        xs = [rng.choice([0.5, 1.0, 1.0, 2.5, -1.0, 3.0]) for _ in range(rng.randint(1, 6))]
+        if op != "argsort":
+            xs = [float("nan") if rng.random() < 0.3 else v for v in xs]
+            if op == "nanmax" and all(v != v for v in xs):
+                xs[0] = 1.0
+        return op, dict(x=xs)
+    if op in ("tree_leaves", "tree_map_none"):
+        import json as _j
+        k = iter(range(100))
+        def mk(d):
+            if d == 0 or rng.random() < 0.3:
+                return None if (op == "tree_map_none" and rng.random() < 0.3) else next(k)
+            if rng.random() < 0.5:
+                return {rng.choice(["b", "a", "z", "m", "Dense_10", "Dense_2"]) + str(i): mk(d - 1) for i in range(rng.randint(1, 3))}
+            return [mk(d - 1) for _ in range(rng.randint(1, 3))]
+        return op, dict(tree=_j.dumps({"root": mk(3), "alpha": mk(2)}))
 
 
 def close(a, b):
@@ -188,7 +214,21 @@ def main():
         if m == "skip":
             continue
         per_op[c["op"]][0] += 1
-        if isinstance(m, tuple) and m[0] == "r6":
+        if isinstance(m, tuple) and m[0] == "axioms":
+            x = c["args"]["x"]
+            nan = [v != v for v in x]
+            if m[1] == "argmin_nan":       # assumed: with a NaN present the FIRST NaN index, otherwise the first index of a minimal entry
+                ok = (r == nan.index(True)) if any(nan) else (x[r] == min(x) and r == x.index(min(x)))
+            elif m[1] == "argsort":        # assumed: a permutation that sorts ascending
+                ok = sorted(r) == list(range(len(x))) and all(x[r[i]] <= x[r[i + 1]] for i in range(len(x) - 1))
+            else:                          # assumed: extreme over the non-NaN entries, attained by one of them
+                fin = [v for v in x if v == v]
+                ok = abs(r[0] - max(fin)) < 1e-6 and abs(r[1] - min(fin)) < 1e-6
+        elif isinstance(m, tuple) and m[0] == "json":
+            ok = m[1] == r
+        elif c["op"] == "tree_leaves":
+            ok = m == r
+        elif isinstance(m, tuple) and m[0] == "r6":
             ok = abs(r - m[1]) <= 5e-7 + 1e-12     # the axiom: |R6(x) - x| <= 5e-7
         elif c["op"] == "take" or c["op"] == "take_arr":
             n = len(c["args"]["x"])
